@@ -37,6 +37,7 @@ def configs(tier):
             for mode in ("none", "list", "dict", "self"):
                 out.append({"fn": "KL", "flavour": flav, "n": n, "mode": mode})
     out.append({"fn": "kwargs"})
+    out.append({"generic": "every shape"})
     return out
 
 
@@ -150,6 +151,9 @@ def _is_plain_real(x):
 
 
 def run_config(ctx, cfg):
+    if cfg.get("generic"):
+        from contracts import gsets
+        return gsets.run(ctx, "C10")
     if cfg["fn"] == "kwargs":
         return _kwargs(ctx)
     return {"fidelity": _fidelity, "NLL": _nll, "KL": _kl}[cfg["fn"]](ctx, cfg)
@@ -426,5 +430,8 @@ def _kwargs(ctx):
 
 
 def replay(o):
+    if o["cfg"].get("generic"):
+        from contracts import gsets
+        return gsets.replay("C10", o)
     from drivers import C10 as D
     return D.replay(o["cfg"], (o.get("witness") or {}).get("env") or {}, o.get("short") or "")
